@@ -4,8 +4,10 @@
 (* transcribed mechanism stores and reads back, the clauses the mechanism breaks) for harness/cmd/c06.            *)
 EXTENDS Spans, Json
 
-CONSTANTS ExportMod, ExportSeed,   \* export the cases with (CaseHash + ExportSeed) % ExportMod = 0; 0 = none
-          MaxSpans                 \* bound on spans per body for the batch families
+CONSTANTS Family,                  \* which family of bodies (see FamilyBodies)
+          ExportMod, ExportSeed,   \* export the cases with (CaseHash + ExportSeed) % ExportMod = 0; 0 = none
+          MaxSpans,                \* bound on spans per body for the batch families
+          BatchOwn, BatchName, BatchRemote   \* batch family: sets of booleans (own trace id? name present? remote endpoint?)
 
 G4 == <<"traceId", "id", "timestamp", "duration">>
 Perms(S) == {f \in [1..Cardinality(S) -> S] : \A a \in S : \E k \in 1..Cardinality(S) : f[k] = a}
@@ -26,7 +28,7 @@ AllKeys == G4 \o <<"parentId", "name", "localEndpoint", "remoteEndpoint", "tags"
 ZTids == {<<"0", "0">>, <<"0">>, <<"a">>, <<"a", "b">>, <<"f", "f">>, <<"f">>, <<"0", "a">>}
 ZSids == {<<"0", "0">>, <<"c">>, <<"c", "d">>, <<"f", "f">>, <<"f">>}
 ZPars == {<<>>, <<"e">>, <<"e", "g">>, <<"f", "f">>, <<"0", "e">>}
-ZBodiesIds ==
+ZBodiesIds(u_) ==
   {ZBody(fr, tk, <<ZS(tid, sid, par, 10, 5, "@n1", "@L1", "-", <<T("@k1", "@v11")>>,
                      IF par = <<>> THEN G4 \o <<"name", "localEndpoint", "tags">>
                      ELSE G4 \o <<"parentId", "name", "localEndpoint", "tags">>, 0)>>) :
@@ -35,13 +37,13 @@ ZBodiesIds ==
 (* orders: one span, every subset of the optional keys, every endpoint shape, EVERY order of the optional keys,   *)
 (* the four mandatory keys before or after them                                                                 *)
 Optional == {"parentId", "name", "localEndpoint", "remoteEndpoint", "tags"}
-ZOrderSpans ==
+ZOrderSpans(u_) ==
   UNION {UNION {{ZS(<<"a", "b">>, <<"c", "d">>, <<"e", "g">>, 10, 5, "@n1", loc, rem, <<T("@k1", "@v11"), T("@k2", "@v12")>>, ord, 0) :
                    ord \in {G4 \o p : p \in Perms(ks)} \cup {p \o G4 : p \in Perms(ks)}} :
                 loc \in (IF "localEndpoint" \in ks THEN {"@L1", NoName} ELSE {"-"}),
                 rem \in (IF "remoteEndpoint" \in ks THEN {"@R1", NoName} ELSE {"-"})} :
          ks \in SUBSET Optional}
-ZBodiesOrders == {ZBody(fr, "number", <<s>>) : fr \in Framings, s \in ZOrderSpans}
+ZBodiesOrders(u_) == {ZBody(fr, "number", <<s>>) : fr \in Framings, s \in ZOrderSpans(0)}
 
 (* batches: up to MaxSpans spans per body; per span: same or own trace, parent / name / local endpoint / remote   *)
 (* endpoint / tags present or not; canonical key order with the local endpoint before or after the remote one     *)
@@ -54,18 +56,23 @@ ZBatchSpan(n, ownTrace, par, name, loc, rem, tags, locFirst) ==
          IF par THEN <<"e", "p" \o N2S(n)>> ELSE <<>>, 10 * n, n,
          IF name THEN "@n" \o N2S(n) ELSE "", IF loc THEN "@L" \o N2S(n) ELSE "-", IF rem THEN "@R" \o N2S(n) ELSE "-",
          IF tags THEN <<T("@k1", "@v" \o N2S(n) \o "1")>> ELSE <<>>, G4 \o ks, 0)
-ZBatchChoices(n) == {ZBatchSpan(n, o, p, nm, l, r, t, TRUE) : o \in IF n = 1 THEN {FALSE} ELSE BOOLEAN,
-                                                             p \in BOOLEAN, nm \in BOOLEAN, l \in BOOLEAN, r \in {FALSE}, t \in BOOLEAN}
-ZBatches == UNION {{f \in [1..m -> UNION {ZBatchChoices(n) : n \in 1..m}] : \A n \in 1..m : f[n] \in ZBatchChoices(n)} : m \in 1..MaxSpans}
-ZBodiesBatch == {ZBody(fr, "number", ss) : fr \in Framings, ss \in ZBatches}
+ZBatchChoices(n) == {ZBatchSpan(n, o, p, nm, l, r, t, lf) : o \in IF n = 1 THEN {FALSE} ELSE BatchOwn,
+                                                           p \in BOOLEAN, nm \in BatchName, l \in BOOLEAN, r \in BatchRemote,
+                                                           t \in BOOLEAN, lf \in {TRUE}}
+Prod(C(_), m) == CASE m = 1 -> {<<a>> : a \in C(1)}
+                   [] m = 2 -> {<<a, b>> : a \in C(1), b \in C(2)}
+                   [] m = 3 -> {<<a, b, c>> : a \in C(1), b \in C(2), c \in C(3)}
+ZBatches(u_) == UNION {Prod(ZBatchChoices, m) : m \in 1..MaxSpans}
+ZBodiesBatch(u_) == {ZBody(fr, "number", ss) : fr \in Framings, ss \in ZBatches(0)}
 
 (* big: spans carrying one very long tag value (> 64 KiB: longer than a bufio.Scanner token; > 256 KiB: a few of   *)
 (* them cross the 1 MiB flush threshold of the parser)                                                           *)
 ZBigSpan(n, big) == ZS(<<"a", "b">>, <<"c", "s" \o N2S(n)>>, <<>>, 10 * n, n, "@n" \o N2S(n), "@L1", "-",
                        IF big = 0 THEN <<T("@k1", "@v" \o N2S(n) \o "1")>> ELSE <<T("@k1", "@v" \o N2S(n) \o "1"), T("@kb", "@B" \o N2S(big))>>,
                        G4 \o <<"name", "localEndpoint", "tags">>, big)
-ZBigs == UNION {{f \in [1..m -> UNION {{ZBigSpan(n, b) : b \in 0..2} : n \in 1..m}] : \A n \in 1..m : f[n] \in {ZBigSpan(n, b) : b \in 0..2}} : m \in 1..MaxSpans}
-ZBodiesBig == {ZBody(fr, "string", ss) : fr \in Framings, ss \in {x \in ZBigs : \E n \in DOMAIN x : x[n].big > 0}}
+ZBigChoices(n) == {ZBigSpan(n, b) : b \in 0..2}
+ZBigs(u_) == UNION {Prod(ZBigChoices, m) : m \in 1..MaxSpans}
+ZBodiesBig(u_) == {ZBody(fr, "string", ss) : fr \in Framings, ss \in {x \in ZBigs(0) : \E n \in DOMAIN x : x[n].big > 0}}
 
 (* ----------------------------------------------- OTLP ----------------------------------------------------- *)
 OS(tid, sid, parent, start, end, name, attrs, big) ==
@@ -92,21 +99,21 @@ rNum  == KV("@r", Sc("int", "@i4"))
 Catalog == {aS, aI, aD, aB, aL, aM, aN1, aN2, aE, aP}
 
 (* attrs: one span, every subset of the catalog of attribute kinds, with / without resource attributes *)
-OBodiesAttrs == {OBody(<<Grp(ra, <<<<OS(<<"a", "b">>, <<"c", "d">>, <<>>, 10, 15, "@n1", SetToSeq(as), 0)>>>>)>>) :
+OBodiesAttrs(u_) == {OBody(<<Grp(ra, <<<<OS(<<"a", "b">>, <<"c", "d">>, <<>>, 10, 15, "@n1", SetToSeq(as), 0)>>>>)>>) :
                    as \in SUBSET Catalog, ra \in {<<>>, <<rSvc>>, <<rSvc, rHost, rNum>>, <<rHost>>}}
 (* ids: every class of id, zero / positive duration *)
 OTids == {<<"0", "0">>, <<"a", "b">>, <<"f", "f">>, <<"0", "a">>, <<"a", "0">>}
 OSids == {<<"0", "0">>, <<"c", "d">>, <<"f", "f">>}
 OPars == {<<>>, <<"e", "g">>, <<"f", "f">>, <<"0", "0">>}
-OBodiesIds == {OBody(<<Grp(<<rSvc>>, <<<<OS(tid, sid, par, 10, 10 + d, "@n1", <<aS>>, 0)>>>>)>>) :
+OBodiesIds(u_) == {OBody(<<Grp(<<rSvc>>, <<<<OS(tid, sid, par, 10, 10 + d, "@n1", <<aS>>, 0)>>>>)>>) :
                  tid \in OTids, sid \in OSids, par \in OPars, d \in {0, 5}}
 (* groups: up to 2 resource groups x up to 2 scopes each (empty ones included), up to MaxSpans spans in all *)
 ScopeShapes == 0..MaxSpans
-GroupShapes == SeqsUpTo(ScopeShapes, 2)
+GroupShapes(u_) == SeqsUpTo(ScopeShapes, 2)
 RECURSIVE SumSeq(_)
 SumSeq(s) == IF s = <<>> THEN 0 ELSE Head(s) + SumSeq(Tail(s))
 GTotal(gs) == SumSeq([g \in DOMAIN gs |-> SumSeq(gs[g])])
-BodyShapes == {gs \in SeqsUpTo(GroupShapes, 2) : Len(gs) >= 1 /\ GTotal(gs) \in 1..MaxSpans}
+BodyShapes(u_) == {gs \in SeqsUpTo(GroupShapes(0), 2) : Len(gs) >= 1 /\ GTotal(gs) \in 1..MaxSpans}
 Offset(gs, g, sc) == SumSeq([h \in 1..(g - 1) |-> SumSeq(gs[h])]) + SumSeq([t \in 1..(sc - 1) |-> gs[g][t]])
 OGSpan(n, own, kind) == OS(IF own THEN <<"a", "t" \o N2S(n)>> ELSE <<"a", "b">>, <<"c", "s" \o N2S(n)>>,
                            IF n = 1 THEN <<>> ELSE <<"c", "s1">>, 10 * n, 11 * n, "@n" \o N2S(n),
@@ -117,12 +124,24 @@ OGBodies(gs) ==
                     OGSpan(Offset(gs, g, sc) + k, own[Offset(gs, g, sc) + k], kinds[Offset(gs, g, sc) + k])]])]) :
          kinds \in [1..n -> 0..2], own \in [1..n -> BOOLEAN],
          ra \in {f \in [DOMAIN gs -> {<<>>, <<rSvc, rHost>>, <<rSvc2>>}] : f[1] # <<rSvc2>> /\ (Len(gs) = 2 => f[2] # <<rSvc, rHost>>)}}
-OBodiesGroups == UNION {OGBodies(gs) : gs \in BodyShapes}
+OBodiesGroups(u_) == UNION {OGBodies(gs) : gs \in BodyShapes(0)}
 (* big: a few spans with a very long attribute value; two of the largest cross the 1 MiB flush threshold *)
 OBigSpan(n, big) == OS(<<"a", "b">>, <<"c", "s" \o N2S(n)>>, <<>>, 10 * n, 11 * n, "@n" \o N2S(n),
                        IF big = 0 THEN <<aS>> ELSE <<aS, KV("@kb", Sc("str", "@B" \o N2S(big)))>>, big)
-OBigs == UNION {{f \in [1..m -> UNION {{OBigSpan(n, b) : b \in 0..2} : n \in 1..m}] : \A n \in 1..m : f[n] \in {OBigSpan(n, b) : b \in 0..2}} : m \in 1..MaxSpans}
-OBodiesBig == {OBody(<<Grp(<<rSvc>>, <<ss>>)>>) : ss \in {x \in OBigs : \E n \in DOMAIN x : x[n].big > 0}}
+OBigChoices(n) == {OBigSpan(n, b) : b \in 0..2}
+OBigs(u_) == UNION {Prod(OBigChoices, m) : m \in 1..MaxSpans}
+OBodiesBig(u_) == {OBody(<<Grp(<<rSvc>>, <<ss>>)>>) : ss \in {x \in OBigs(0) : \E n \in DOMAIN x : x[n].big > 0}}
+
+(* TLC evaluates every parameterless constant definition at start-up: the families take a dummy argument so that  *)
+(* only the selected one is ever built                                                                           *)
+FamilyBodies == CASE Family = "zids"    -> ZBodiesIds(0)
+                  [] Family = "zorders" -> ZBodiesOrders(0)
+                  [] Family = "zbatch"  -> ZBodiesBatch(0)
+                  [] Family = "zbig"    -> ZBodiesBig(0)
+                  [] Family = "oattrs"  -> OBodiesAttrs(0)
+                  [] Family = "oids"    -> OBodiesIds(0)
+                  [] Family = "ogroups" -> OBodiesGroups(0)
+                  [] Family = "obig"    -> OBodiesBig(0)
 
 (* ----------------------------------------------- export --------------------------------------------------- *)
 DefOut(n) == LET d == Def(n) IN [tid |-> d.tid, sid |-> d.sid, parent |-> d.parent, name |-> d.name, ts |-> d.ts, dur |-> d.dur,
@@ -137,7 +156,6 @@ CaseRec == [body |-> body, n |-> NSpans(body),
                       read |-> SetToSeq({[tid |-> t, spans |-> ReadTrace(t)] : t \in Tids}),
                       responses |-> Len(sent)],
             flags |-> Flags]
-RECURSIVE StrHash(_)
 SeqHash(s) == SumSeq([k \in DOMAIN s |-> (k * 7 + 3) * (Len(s[k]) + 1)])
 CaseHash == IF body.proto = "zipkin"
             THEN SumSeq([n \in DOMAIN body.spans |-> (n * 31 + 5) * (SeqHash(body.spans[n].order) + Len(body.spans[n].tid) * 3
@@ -145,7 +163,6 @@ CaseHash == IF body.proto = "zipkin"
                  + (IF body.framing = "array" THEN 1 ELSE 0)
             ELSE SumSeq([n \in DOMAIN OSpans(body) |-> (n * 31 + 5) * (Len(OSpans(body)[n].span.attrs) * 3 + Len(OSpans(body)[n].rattrs))])
                  + Len(body.groups)
-StrHash(s) == 0
 Export == \/ pc # "done"
           \/ ExportMod = 0
           \/ (CaseHash + ExportSeed) % ExportMod # 0
